@@ -54,9 +54,33 @@ func bigOf(s string) *big.Int {
 // validators never withdraw more than has matured.
 type C13Mon struct {
 	withdrawn map[string]*big.Int // validator -> nue withdrawn
+	// what the genesis records as withdrawn already, per validator (a chain started from a dumped state)
+	genesisWithdrawn map[string]*big.Int
 }
 
 func NewC13() *C13Mon { return &C13Mon{withdrawn: map[string]*big.Int{}} }
+
+// NewC13FromGenesis also reads, from the genesis application state, what validators had withdrawn before.
+func NewC13FromGenesis(appState []byte) *C13Mon {
+	m := NewC13()
+	var st struct {
+		Rewards struct {
+			Cumu struct {
+				Withdrawn []struct {
+					Address string `json:"address"`
+					Amount  string `json:"amount"`
+				} `json:"withdrawnAmounts"`
+			} `json:"cumuState"`
+		} `json:"rewards"`
+	}
+	if json.Unmarshal(appState, &st) == nil {
+		m.genesisWithdrawn = map[string]*big.Int{}
+		for _, w := range st.Rewards.Cumu.Withdrawn {
+			m.genesisWithdrawn[w.Address] = bigOf(w.Amount)
+		}
+	}
+	return m
+}
 
 func sumPrefix(s hist.State, prefix string, filter func(k string) bool) *big.Int {
 	t := new(big.Int)
@@ -133,6 +157,15 @@ func (m *C13Mon) OnBlock(blk *hist.Block) []Finding {
 			if consumed.Cmp(bound) > 0 {
 				out = append(out, Finding{"C13", "C13/exceeds-burnout", fmt.Sprintf("block %d: %s consumed after the schedule is over, burnout rate capped by the pool is %s", blk.H, consumed, bound)})
 			}
+		}
+	}
+	// what a validator has withdrawn is on record as withdrawn: the genesis figure plus this chain's successful
+	// withdrawals
+	for v, g := range m.genesisWithdrawn {
+		want := new(big.Int).Add(g, get(m.withdrawn, v))
+		if got := amountAt(blk.Cur, "rwcum_withdrawn_"+v); got.Cmp(want) != 0 {
+			out = append(out, Finding{"C13", "C13/withdrawn-total-not-on-record", fmt.Sprintf("block %d: validator %s is on record with %s withdrawn; the genesis state says %s and this chain's successful withdrawals add %s", blk.H, v, got, g, get(m.withdrawn, v))})
+			break
 		}
 	}
 	// what has matured for a validator (its matured balance plus what it has withdrawn) never exceeds the reward
